@@ -37,7 +37,8 @@ def job_boundary(fmt):
     U_ = source.import_repo("iodata.utils")
     cfg = api_config()
     cfg.inline_generators.add(target)
-    cfg.loop_specs[(target, 0)] = true_loop("True", "loop.frames")
+    # the frame loop is the first loop of load_many, whatever its header is (`while True:` + next(lit), `for line in lit:`)
+    cfg.loop_specs[(target, 0)] = true_loop("", "loop.frames")
     cfg.on_yield = lambda interp, v: interp.ctx.event("yield", v)
 
     def load_one(interp, args, kwargs):
